@@ -132,7 +132,7 @@ def mid(m):
 
 def sh(cmd, cwd, timeout):
     try:
-        p = subprocess.run(cmd, cwd=cwd, env=ENV, shell=isinstance(cmd, str), stdout=subprocess.PIPE, stderr=subprocess.STDOUT, text=True, timeout=timeout)
+        p = subprocess.run(cmd, cwd=cwd, env=ENV, shell=isinstance(cmd, str), stdout=subprocess.PIPE, stderr=subprocess.STDOUT, text=True, errors="replace", timeout=timeout)
         return p.returncode, p.stdout
     except subprocess.TimeoutExpired as e:
         return 124, (e.stdout or b"").decode(errors="replace") if isinstance(e.stdout, bytes) else (e.stdout or "")
@@ -161,7 +161,7 @@ def run_one(m, wt, props_of):
         for p in props_of.get(m["file"], []):
             env = dict(ENV, VERIF_REPO=wt, VERIF_EXTRA="-no-evidence")
             try:
-                pr = subprocess.run(["./run.sh", p, "quick"], cwd=ROOT, env=env, stdout=subprocess.PIPE, stderr=subprocess.STDOUT, text=True, timeout=1500)
+                pr = subprocess.run(["./run.sh", p, "quick"], cwd=ROOT, env=env, stdout=subprocess.PIPE, stderr=subprocess.STDOUT, text=True, errors="replace", timeout=1500)
                 rc, out = pr.returncode, pr.stdout
             except subprocess.TimeoutExpired:
                 rc, out = 124, ""
@@ -191,6 +191,21 @@ def main():
         print(len(ms), "mutants;", collections.Counter(m["op"].split(" ")[0] for m in ms).most_common(12))
         return
     if cmd == "summary":
+        summary()
+        return
+    if cmd == "redo":
+        ids = set(sys.argv[2:])
+        ms = [m for m in all_mutants() if mid(m) in ids]
+        props_of = file_props()
+        wt = f"/root/vscratch/mut-{os.getpid()}-redo"
+        subprocess.check_call(["git", "-C", REPO, "worktree", "add", "-q", "--detach", wt, "HEAD"])
+        try:
+            for m in ms:
+                r = run_one(m, wt, props_of)
+                open(os.path.join(OUT, "results.jsonl"), "a").write(json.dumps(r) + "\n")
+                print(r["id"], r["result"], r.get("killed_by", ""), r.get("checks"))
+        finally:
+            subprocess.call(["git", "-C", REPO, "worktree", "remove", "--force", wt])
         summary()
         return
     if cmd == "run":
